@@ -117,6 +117,19 @@ Theorem C09_progress_partial_instance :
 Proof. exact progress_nonchunked_idcap. Qed.
 Print Assumptions C09_progress_partial_instance.
 
+(* "Reading always progresses to end-of-body" is also REFUTED at connection_lost: when the peer closes while the
+   parser holds pending input (has_more with the transport reading), feed_eof() pauses again and returns, the
+   parser is dropped and the rest of a completely received body is never delivered; the reader raises
+   RuntimeError("Connection closed.").  Witness on the toy instance: a transport without flow control (tolerated by
+   BaseProtocol.pause_reading).  With flow control the same state needs a codec whose data_available is false
+   after a non-empty output, e.g. zstd at a frame boundary: replayed on the implementation,
+   corpus/C09/lost_at_close_zstd.json (known finding C09-lost-at-close-while-pending).  What holds instead is
+   C09_progress_partial: as long as the connection is open nothing is lost or stuck (non-chunked framing). *)
+Theorem C09_reaches_eof_refuted :
+  exists evs, lost_at_close (toy_run 1000 (toy_init 1 true 8190 8190 125 false PLength 9 1) evs).
+Proof. exists w_lost_events. exact lost_witness. Qed.
+Print Assumptions C09_reaches_eof_refuted.
+
 (* ---- a corrupt encoding is reported ------------------------------------------------------------------
    Not proved in general (see DESIGN-built/C09.md).  The faithful model refutes "the consumer always gets the
    payload error": a reader woken by a data-less chunk end goes back to wait without looking at the exception
